@@ -254,17 +254,22 @@ func (a *List) DelItem(i int) {
 // Removes items from a list
 func (a *List) M__delitem__(key Object) (Object, error) {
 	if slice, ok := key.(*Slice); ok {
-		start, stop, step, _, err := slice.GetIndices(len(a.Items))
+		start, stop, step, slicelength, err := slice.GetIndices(len(a.Items))
 		if err != nil {
 			return nil, err
 		}
 		if step == 1 {
+			if stop < start {
+				stop = start
+			}
 			a.Items = append(a.Items[:start], a.Items[stop:]...)
-		} else {
-			j := 0
-			for i := start; i < stop; i += step {
+		} else if slicelength > 0 {
+			if step < 0 {
+				// delete the same items in ascending order
+				start, step = start+(slicelength-1)*step, -step
+			}
+			for i, j := start, 0; j < slicelength; i, j = i+step, j+1 {
 				a.DelItem(i - j)
-				j++
 			}
 		}
 	} else {
